@@ -160,6 +160,26 @@ def forwarded_to(path: Path, op: str):
     return None
 
 
+def effects_toggle(run: "Run") -> str:
+    """Name of the per-dataset attribute that Dataset.disable_effects() sets to True (the effects toggle)."""
+    if "effects_toggle" in run._rule_cache:
+        return run._rule_cache["effects_toggle"]
+    from .interp import Ctx, analyse_function
+    ds = run.repo.cls("Dataset")
+    fn = ds.methods.get("disable_effects")
+    if fn is None:
+        raise AnalysisError("Dataset.disable_effects not found")
+    names = set()
+    for p in analyse_function(Ctx(run.repo), ds.module, fn, cls=ds):
+        for e in p.events:
+            if e.kind == "store" and len(e.args) == 2 and e.args[0].key() == "self" and e.target is not None and e.target.key() == "Const(True)":
+                names.add(getattr(e.args[1], "v", None))
+    if len(names) != 1:
+        raise AnalysisError(f"Dataset.disable_effects sets {sorted(map(str, names))} to True; exactly one toggle attribute expected")
+    run._rule_cache["effects_toggle"] = names.pop()
+    return run._rule_cache["effects_toggle"]
+
+
 def dataset_compositions(run: "Run"):
     """[(effects_disabled polarity, composed term)]: the expression(s) a Dataset
     forwards evaluate() to, read off the paths of Dataset.evaluate."""
@@ -169,7 +189,7 @@ def dataset_compositions(run: "Run"):
         e0 = forwarded_to(p0, "evaluate")
         if e0 is None:
             continue
-        dis = cond_pol(p0.conds, "Child(_effects_disabled)")
+        dis = cond_pol(p0.conds, f"Child({effects_toggle(run)})")
         if (dis, e0.target.key()) in seen:
             continue
         seen.add((dis, e0.target.key()))
